@@ -1,0 +1,85 @@
+//go:build verif
+// +build verif
+
+package fatigue
+
+// Contracts for gocv (comment-only; compiled out unless the tag "verif" is set, and empty then).
+
+//@ spec blurred(v real, u real, s real, f real) real = v + v * u * f * s
+// within: the new value is the bounding of some value w with |w - v| <= |f*v| (bounding is monotone, so this is an interval)
+//@ pred within(nv real, b criteria_bounding.CriteriaInRangeBounding, v real, f real) =
+//@      criteria_bounding.boundedIn(b, v - abs(f * v)) <= nv && nv <= criteria_bounding.boundedIn(b, v + abs(f * v))
+//@   opaque
+
+//@ func (*ConstFatigueFunction).Evaluate
+//@   property C17
+//@   ensures [const] result == params.(*ConstFatigueParams).Value
+//@ func (*ExponentialFromZeroFatigue).Evaluate
+//@   property C17
+//@   ensures [exp] result == params.(*ExpFatigueParams).Multiplier * exp(params.(*ExpFatigueParams).Alpha * real(params.(*ExpFatigueParams).QueryNumber)) - params.(*ExpFatigueParams).Multiplier
+
+//@ func blurCriteriaValues
+//@   property C17
+//@   fnparam valueGenerator ensures 0.0 <= result && result < 1.0
+//@   fnparam signGenerator ensures 0.0 <= result && result < 1.0
+//@   requires forall i int, j int :: 0 <= i && i < j && j < len(criteria) ==> criteria[i].criterion.Id != criteria[j].criterion.Id
+//@   ensures [shape] fresh(result) && len(result) == len(alternatives) && forall i int :: 0 <= i && i < len(alternatives) ==> result[i].Id == alternatives[i].Id
+//@   ensures [blur] forall i int, j int :: 0 <= i && i < len(alternatives) && 0 <= j && j < len(criteria) ==>
+//@        criteria[j].criterion.Id in result[i].Criteria &&
+//@        within(result[i].Criteria[criteria[j].criterion.Id], *criteria[j].bounding, alternatives[i].Criteria[criteria[j].criterion.Id], fatigueRatio)
+//@   ensures [only] forall i int, q string :: 0 <= i && i < len(alternatives) && q in result[i].Criteria ==> exists j int :: 0 <= j && j < len(criteria) && criteria[j].criterion.Id == q
+//@   ensures [fresh_maps] forall i int :: 0 <= i && i < len(alternatives) ==> fresh(result[i].Criteria)
+//@   loop 1 invariant [shape] fresh(newAlternatives) && len(newAlternatives) == len(alternatives) && forall i int :: 0 <= i && i < iter ==> newAlternatives[i].Id == alternatives[i].Id
+//@   loop 1 invariant [blur] forall i int, j int :: 0 <= i && i < iter && 0 <= j && j < len(criteria) ==>
+//@        criteria[j].criterion.Id in newAlternatives[i].Criteria &&
+//@        within(newAlternatives[i].Criteria[criteria[j].criterion.Id], *criteria[j].bounding, alternatives[i].Criteria[criteria[j].criterion.Id], fatigueRatio)
+//@   loop 1 invariant [only] forall i int, q string :: 0 <= i && i < iter && q in newAlternatives[i].Criteria ==> exists j int :: 0 <= j && j < len(criteria) && criteria[j].criterion.Id == q
+//@   loop 1 invariant [fresh_maps] forall i int :: 0 <= i && i < iter ==> fresh(newAlternatives[i].Criteria)
+//@   loop 2 hint [eps_bound] currentValue - abs(fatigueRatio * currentValue) <= blurredValue && blurredValue <= currentValue + abs(fatigueRatio * currentValue)
+//@   loop 2 hint [bounded] boundedBlurredValue == criteria_bounding.boundedIn(*c.bounding, blurredValue) && currentValue == alternatives[i].Criteria[c.criterion.Id]
+//@   loop 2 hint [mono] unfold(within(boundedBlurredValue, *c.bounding, currentValue, fatigueRatio))
+//@   loop 2 invariant [ctx] 0 <= i && i < len(alternatives) && a == alternatives[i] && fresh(newWeights) && newWeights != nil
+//@   loop 2 invariant [inner] forall j int :: 0 <= j && j < iter ==>
+//@        criteria[j].criterion.Id in newWeights &&
+//@        within(newWeights[criteria[j].criterion.Id], *criteria[j].bounding, alternatives[i].Criteria[criteria[j].criterion.Id], fatigueRatio)
+//@   loop 2 invariant [inner_only] forall q string :: q in newWeights ==> exists j int :: 0 <= j && j < iter && criteria[j].criterion.Id == q
+
+//@ lemma [C17] within_means_bounded_blur: forall nv real, b criteria_bounding.CriteriaInRangeBounding, v real, f real
+//@   requires unfold(within(nv, b, v, f))
+//@   ensures  criteria_bounding.boundedIn(b, v - abs(f * v)) <= nv && nv <= criteria_bounding.boundedIn(b, v + abs(f * v))
+//@ lemma [C17] blur_before_bounding: forall v real, u real, f real
+//@   requires 0.0 <= u && u < 1.0
+//@   ensures  abs(blurred(v, u, 1.0, f) - v) <= abs(f * v) && abs(blurred(v, u, -1.0, f) - v) <= abs(f * v)
+//@   ensures  f == 0.0 ==> blurred(v, u, 1.0, f) == v && blurred(v, u, -1.0, f) == v
+
+//@ func matchCriteriaWithBoundings
+//@   property C17
+//@   ensures [criteria_in_order] fresh(result) && len(result) == len(dmp.Criteria) && forall k int :: 0 <= k && k < len(dmp.Criteria) ==> result[k].criterion == dmp.Criteria[k]
+//@   loop 1 invariant [filled] fresh(result) && len(result) == len(dmp.Criteria) && forall k int :: 0 <= k && k < iter ==> result[k].criterion == dmp.Criteria[k]
+
+//@ func prepareResult
+//@   property C17 C09
+//@   ensures [state] fresh(result) && fresh(result.DMP) && result.DMP.ConsideredAlternatives == consideredAlts && result.DMP.NotConsideredAlternatives == notConsideredAlts
+//@   ensures [untouched] result.DMP.Criteria == current.Criteria && result.DMP.MethodParameters == current.MethodParameters
+//@   ensures [report] typeis(result.Props, FatigueResult) && result.Props.(FatigueResult).EffectiveFatigueRatio == fatigueRatio
+//@   ensures [report_is_state] result.Props.(FatigueResult).ConsideredAlternatives == consideredAlts && result.Props.(FatigueResult).NotConsideredAlternatives == notConsideredAlts
+
+//@ func (*Fatigue).Apply
+//@   property C17 C09 C07
+//@   requires forall i int, j int :: 0 <= i && i < j && j < len(current.Criteria) ==> current.Criteria[i].Id != current.Criteria[j].Id
+//@   ensures [untouched] result.DMP.Criteria == current.Criteria && result.DMP.MethodParameters == current.MethodParameters
+//@   ensures [report_is_state] typeis(result.Props, FatigueResult)
+//@             && result.Props.(FatigueResult).ConsideredAlternatives == result.DMP.ConsideredAlternatives
+//@             && result.Props.(FatigueResult).NotConsideredAlternatives == result.DMP.NotConsideredAlternatives
+//@   ensures [same_alternatives] len(result.DMP.ConsideredAlternatives) == len(current.ConsideredAlternatives)
+//@             && len(result.DMP.NotConsideredAlternatives) == len(current.NotConsideredAlternatives)
+//@             && (forall i int :: 0 <= i && i < len(current.ConsideredAlternatives) ==> result.DMP.ConsideredAlternatives[i].Id == current.ConsideredAlternatives[i].Id)
+//@             && (forall i int :: 0 <= i && i < len(current.NotConsideredAlternatives) ==> result.DMP.NotConsideredAlternatives[i].Id == current.NotConsideredAlternatives[i].Id)
+//@   ensures [coherent] (forall i int, j int :: 0 <= i && i < len(current.ConsideredAlternatives) && 0 <= j && j < len(current.Criteria) ==> current.Criteria[j].Id in result.DMP.ConsideredAlternatives[i].Criteria)
+//@             && (forall i int, j int :: 0 <= i && i < len(current.NotConsideredAlternatives) && 0 <= j && j < len(current.Criteria) ==> current.Criteria[j].Id in result.DMP.NotConsideredAlternatives[i].Criteria)
+//@   ensures [fresh_state] fresh(result.DMP.ConsideredAlternatives) && fresh(result.DMP.NotConsideredAlternatives)
+
+// parseFatigueFuncParams decodes into the object BlankParams() returned (an interface value whose dynamic type is not
+// known statically): assumed to write only that fresh object.
+//@ func parseFatigueFuncParams
+//@   trusted
